@@ -106,7 +106,59 @@ def h_hash_seed(ctx, case):
     return 'ok'
 
 
+def setup_lookup_hash(case, mode):
+    from harness import selstage as SS
+    from harness.common import HashSet
+    import cell_type_mapper.type_assignment.marker_cache_v2 as MC
+    import cell_type_mapper.diff_exp.precompute_utils as PU
+    SS.setup(case, mode)
+    patch(MC, 'print', lambda *a, **k: None)
+    patch(MC, 'set', HashSet)
+    patch(PU, 'set', HashSet)
+
+
+def h_lookup_hash_seed(ctx, case):
+    """query-marker selection from two reference-marker files whose
+    statistics tie at every parent: two runs with independently chosen
+    set iteration orders (two hash seeds) select the same markers"""
+    from harness import selstage as SS
+    from harness.common import HashSet
+    SS.two_reference_files()
+    HashSet.counter[0] = 0
+    a, ea = SS.lookup_two_refs()
+    n1 = HashSet.counter[0]
+    b, eb = SS.lookup_two_refs()
+    if ea is not None or eb is not None:
+        ctx.exception(ea or eb, 'query-marker selection failed: '
+                      + str(ea or eb)[:80])
+        return 'EXC'
+    ctx.reach('selected twice')
+    if n1 > 0:
+        ctx.reach('set iterated')
+
+    def strip(x):
+        return {k: sorted(v) for k, v in x.items()
+                if k not in ('log', 'metadata')}
+    ctx.check(strip(a) == strip(b), 'the selected markers do not depend on '
+              'the iteration order of sets (hash seed)')
+    return 'ok'
+
+
 HARNESSES = [
+    Harness('query_marker_lookup_hash_seed', h_lookup_hash_seed,
+            setup=setup_lookup_hash, cases=[{}],
+            funcs=['marker_cache_v2.create_marker_gene_lookup_from_ref_list',
+                   'create_marker_gene_lookup_from_mapping',
+                   'precompute_utils.run_leaf_census'],
+            stubs=['builtin set inside marker_cache_v2 / precompute_utils '
+                   '-> set with solver-chosen iteration order',
+                   'multiprocessing -> scheduler model'],
+            bounds='two reference-marker files (real marker stage, 5 '
+                   'clusters / 6 genes) whose statistics files hold equally '
+                   'many cells of every cluster (ties at every parent); '
+                   'sets of up to 4 elements in every order, larger ones in '
+                   'insertion order or reversed',
+            expect_reach=['selected twice']),
     Harness('mapping_all_schedules', h_schedules, setup=DP.setup,
             cases=[{'rows': 2, 'K': 2}, {'rows': 3, 'K': 2},
                    {'rows': 3, 'K': 2, 'buffer': True},
